@@ -21,6 +21,7 @@ AllOK == \A k \in RowRange : RowOK(Rows[k])
 \* kind 3: the genuine challenge response replayed from another address - never a connect for that address
 RowOK2(r) == /\ (r[1] = 1 => (r[2] = 1 => (r[3] = 1 /\ r[4] = 1 /\ r[5] = 1)))
              /\ (r[1] = 2 => r[2] = 0)
+             /\ (r[1] = 4 => r[2] = 0)                \* kind 4: the right key but a token that is not the number the server issued - never a connect
              /\ r[6] = 0
 AllOK2 == \A k \in RowRange : RowOK2(Rows[k])
 Where2 == [i |-> i, bad |-> {<<k, Rows[k]>> : k \in {x \in RowRange : ~RowOK2(Rows[x])}}]
